@@ -6,7 +6,7 @@ from collections import defaultdict
 
 from hypothesis import strategies as st
 
-from vlib import REPO, parse, pipeline, scenario as S, reads as R, build
+from vlib import compare, REPO, parse, pipeline, scenario as S, reads as R, build
 from vlib.refmodel import counting
 from vlib.shard import Stage, case_hash
 
@@ -367,6 +367,25 @@ def eval_pipeline(case, ctx):
                                "permuted": [sorted(kept3.get(r, [])) for r in diff]}, case)
         else:
             ctx.note("crash_perm:" + res3.crash_signature())
+        # "suppressed everywhere": the same input without the alignments that lost gives the same outputs (assignments,
+        # BED, counts and - when models are built - transcript models)
+        losers = [r for r in sc["reads"] if r.get("c") is not None and not (r["f"] & 2048) and n_records[r["n"]] > 1 and
+                  not any(k[0] == r["c"] and int(k[1].split("-")[0]) == R.cigar_blocks(r["p"], r["cg"])[0][0] and
+                          int(k[1].rsplit("-", 1)[1]) == R.cigar_blocks(r["p"], r["cg"])[-1][1]
+                          for k in kept.get(r["n"], ()))]
+        winners_named = set(r["n"] for r in losers) & set(kept)
+        if losers and winners_named and "--no_model_construction" not in sc["opts"]:
+            sc4 = copy.deepcopy(sc)
+            lose = set(id(r) for r in losers)
+            sc4["reads"] = [r2 for r, r2 in zip(sc["reads"], sc4["reads"]) if id(r) not in lose]
+            res4 = pipeline.run_case(sc4, ctx, d=os.path.join(res.dir, "nolosers"))
+            if res4.code == 0 and res4.path("read_assignments.tsv"):
+                ctx.cls("losers_removed_compared")
+                for kind, f, det in compare.diff_dirs(res.out, "OUT", res4.out, "OUT", multiset=True):
+                    ctx.violation("C08:pipeline:losing-alignment-changes-output:" + f,
+                                  {"kind": kind, "file": f, "detail": det, "n_losers": len(losers)}, case)
+            else:
+                ctx.note("crash_nolosers:" + res4.crash_signature())
         ctx.cls("multi-locus-kept" if nt else "single-locus-only")
         if nt or any(v > 1 for v in n_records.values()):
             ctx.mark_nontrivial(case_hash(case))
